@@ -770,6 +770,31 @@ func (sw *c19swarm) emit(ctx *hlib.Ctx) {
 	}
 	sw.mu.Unlock()
 	sort.SliceStable(items, func(x, y int) bool { return items[x].t.Before(items[y].t) })
+	// a legitimate swarm has at most leechers x pieces (<= 4 x 48) receive events, a few more with
+	// restarts; a run with thousands of them (an agent losing and re-fetching a piece for ever) is
+	// cut after the first 1500: the repetition the oracle looks for is in that prefix
+	{
+		cnt, cut := 0, len(items)
+		for k, it := range items {
+			if it.k == "recv" {
+				cnt++
+				if cnt > 1500 {
+					cut = k
+					break
+				}
+			}
+		}
+		if cut < len(items) {
+			var kept []*c19item
+			for k, it := range items {
+				if k < cut || it.k == "join" || it.k == "depart" {
+					kept = append(kept, it)
+				}
+			}
+			items = kept
+			hist = append(hist, "receive-log-truncated")
+		}
+	}
 	// a departure takes effect in the model after the last payload of / for that peer that was
 	// already under way is consumed (messages in flight are still delivered; dispatcher goroutines
 	// of a stopped in-process scheduler may finish a write)
@@ -1184,7 +1209,7 @@ func c19gen(r *hlib.Rng, kind string, tier string) c19spec {
 		sp.delay = append(sp.delay, time.Duration(r.Intn(400))*time.Millisecond)
 	}
 	sp.seedDelay = time.Duration(r.Intn(300)) * time.Millisecond
-	sp.budget = 25 * time.Second
+	sp.budget = 15 * time.Second
 	switch kind {
 	case "baseline":
 		// no fault; convergence within the budget is demanded only when every peer can be
@@ -1193,7 +1218,7 @@ func c19gen(r *hlib.Rng, kind string, tier string) c19spec {
 		if !sp.expect {
 			sp.kind = "baseline-tight"
 		}
-		sp.budget = 60 * time.Second
+		sp.budget = 40 * time.Second
 	case "faulty":
 		sp.corrupt = r.Chance(70)
 		sp.unsol = sp.corrupt && r.Chance(30)
